@@ -63,6 +63,27 @@ def renumber(pop, mode, rng):
     return gen_p21.Population(pop.schema, insts, pop.header)
 
 
+def reorder(pop, how, rng):
+    """Order of the instances in the file (Part 21 allows any order, forward references included)."""
+    insts = list(pop.insts)
+    if how == 'desc':
+        insts.sort(key=lambda i: -i.id)
+    elif how == 'max-first':
+        insts.sort(key=lambda i: i.id)
+        insts = insts[-1:] + insts[:-1]
+    elif how == 'max-middle':
+        insts.sort(key=lambda i: i.id)
+        if len(insts) > 2:
+            insts = insts[:-1]
+            insts.insert(len(insts) // 2, sorted(pop.insts, key=lambda i: i.id)[-1])
+    elif how == 'shuffled':
+        rng.shuffle(insts)
+    return gen_p21.Population(pop.schema, insts, pop.header)
+
+
+ORDERS = ['asc', 'asc', 'desc', 'max-first', 'max-middle', 'shuffled']
+
+
 def ref_shapes(schema, inst):
     out = set()
     for pi, (kw, vals) in enumerate(inst.parts):
@@ -207,8 +228,9 @@ def main(chk):
                     p = None
                     break
                 mode = 'from1' if (f == 0 and k % 2 == 0) or (k % 5 == 0) else rng.choice(MODES)
-                pops.append(renumber(p, mode, rng))
-                modes.append(mode)
+                order = ORDERS[(k + f) % len(ORDERS)]
+                pops.append(reorder(renumber(p, mode, rng), order, rng))
+                modes.append(mode if order == 'asc' else mode + '/' + order)
             if p is None:
                 continue
             cases.append((lib, pops, modes))
@@ -219,6 +241,9 @@ def main(chk):
         cases.append((mlib, mpops[:2], ['matrix', 'matrix']))
         cases.append((mlib, mpops, ['matrix', 'matrix', 'matrix']))
         cases.append((mlib, [renumber(mpops[0], 'near1000', random.Random(1)), mpops[1]], ['matrix-near1000', 'matrix']))
+        for how in ('desc', 'max-first', 'max-middle'):
+            cases.append((mlib, [reorder(renumber(mpops[0], 'high', random.Random(2)), how, random.Random(3)), mpops[1]], ['matrix-high/' + how, 'matrix']))
+            cases.append((mlib, [reorder(mpops[0], how, random.Random(3)), reorder(mpops[1], how, random.Random(4)), mpops[2]], ['matrix/' + how, 'matrix/' + how, 'matrix']))
     else:
         chk.inconc('matrix schema could not be built: %s' % str(mlib.fail)[:300])
 
